@@ -21,7 +21,11 @@ func oneHistory(r *corr.Run, nrep, steps int, focus string) {
 	defer func() {
 		if p := recover(); p != nil {
 			w.logf("PANIC %v", p)
-			w.violate("C06", "panic", fmt.Sprintf("real code panicked on an honest history: %v", p))
+			prop := "C06"
+			if focusProp != "" {
+				prop = focusProp // a crash on an honest history fails whichever property is being checked
+			}
+			w.violate(prop, "panic", fmt.Sprintf("real code panicked on an honest history: %v", p))
 		}
 	}()
 	snapPct := []int{0, 8, 20, 35}[r.Intn(4)]
@@ -46,6 +50,18 @@ func oneHistory(r *corr.Run, nrep, steps int, focus string) {
 			}
 		}
 		r.Count("history.opening.burst")
+		// guard-directed for the loader: right after the merge adds, a full sync with a small limit (cuts between
+		// a merge change and its parents) and one whose responder keeps changing while it streams
+		if !w.failed && len(w.reps) >= 2 {
+			a, b := w.reps[r.Intn(len(w.reps))], w.reps[r.Intn(len(w.reps))]
+			if a != b {
+				if r.Chance(50) {
+					w.fullSync(a, b, []int{1, 1, 250, 450}[r.Intn(4)])
+				} else {
+					w.interleavedSync(a, b, []int{1, 300, 1 << 30}[r.Intn(3)])
+				}
+			}
+		}
 	}
 	for step := 0; step < steps && !w.failed && r.TimeLeft(); step++ {
 		rep := w.reps[r.Intn(len(w.reps))]
@@ -55,10 +71,15 @@ func oneHistory(r *corr.Run, nrep, steps int, focus string) {
 			w.localAdd(rep, r.Chance(snapPct))
 		case k < 62:
 			w.deliverOne()
-		case k < 70:
+		case k < 66:
 			other := w.reps[r.Intn(len(w.reps))]
 			if other != rep {
 				w.fullSync(other, rep, w.pickLimit(other))
+			}
+		case k < 70:
+			other := w.reps[r.Intn(len(w.reps))]
+			if other != rep {
+				w.interleavedSync(other, rep, w.pickLimit(other))
 			}
 		case k < 77:
 			other := w.reps[r.Intn(len(w.reps))]
@@ -145,7 +166,11 @@ func Run(r *corr.Run) {
 	focus := os.Getenv("VERIF_PROPERTY")
 	r.SetRule("one case = one honest multi-replica history on the real objecttree over real any-store storage (local adds with parents = heads and snapshot = current root, snapshots, head updates delivered reordered/duplicated/dropped, full syncs through the real load iterator with guard-directed batch limits, scrambled re-partitioned transfers, close+reopen, history trees), every step checked by the direct C06/C09 oracles; non-trivial = at least 6 changes; distinct = distinct op traces")
 	// pure objecttree.Tree stream first (fast, no storage): arbitrary DAGs and batches against the model
+	// the pure-Tree stream only speaks about C06: a small share when the C09 check runs
 	treeUntil := time.Now().Add(time.Until(r.Deadline) / 5)
+	if focus == "C09" {
+		treeUntil = time.Now().Add(time.Until(r.Deadline) / 12)
+	}
 	if os.Getenv("VERIF_TREE_STREAMS") == "history" { // development switch: only the history simulator
 		treeUntil = time.Now()
 	}
